@@ -133,6 +133,7 @@ static void h_run_case(hcase_t* c) {
     nodes[k].hazard.gc_function = gc_cb;
     rt_reg(&nodes[k].value, 3 * sizeof(void*), 2000 + 3 * k, 8);
   }
+  rt_reg_rest(&fifo, sizeof fifo, 13900);   /* search mode only: fields the model does not know */
   mpmc_fifo_init(&fifo, &nodes[0]);
   /* LIFO pool: node 1 is allocated first */
   for (int k = NN - 1; k >= 1; k--) pool[npool++] = k;
